@@ -58,6 +58,8 @@ func (i *vFileInfo) Sys() any           { return nil }
 
 // vStubFS: one target entry (exists or not, file or folder); fork side files and partial files do not exist.
 type vStubFS struct {
+	infoFork     bool // a ".info_<name>" side file is stored ...
+	infoSaysFldr bool // ... and records type "fldr" (else "TEXT"), whatever the entry really is
 	partial  bool  // a partial upload "<name>.incomplete" exists
 	partSize int64 // its size
 	exists   bool
@@ -89,6 +91,9 @@ func vSideFile(name string) bool {
 
 func (s *vStubFS) Stat(name string) (fs.FileInfo, error) {
 	s.stats = append(s.stats, name)
+	if s.infoFork && s.exists && vIsInfoFork(name) {
+		return &vFileInfo{name: ".info_target.txt", size: 84}, nil
+	}
 	if s.partial && len(name) > 11 && name[len(name)-11:] == ".incomplete" {
 		return &vFileInfo{name: "target.txt.incomplete", size: s.partSize}, nil
 	}
@@ -129,7 +134,32 @@ func (s *vStubFS) WriteFile(name string, data []byte, perm fs.FileMode) error {
 	s.written = append(s.written, name)
 	return nil
 }
-func (s *vStubFS) ReadFile(name string) ([]byte, error) { return nil, fs.ErrNotExist }
+func (s *vStubFS) ReadFile(name string) ([]byte, error) {
+	if s.infoFork && s.exists && vIsInfoFork(name) {
+		b := make([]byte, 72)
+		copy(b[0:], "AMAC")
+		if s.infoSaysFldr {
+			copy(b[4:], "fldr")
+			copy(b[8:], "n/a ")
+		} else {
+			copy(b[4:], "TEXT")
+			copy(b[8:], "ttxt")
+		}
+		b[71] = 10
+		b = append(b, "target.txt"...)
+		return append(b, 0, 0), nil
+	}
+	return nil, fs.ErrNotExist
+}
+
+func vIsInfoFork(name string) bool {
+	i := len(name) - 1
+	for i >= 0 && name[i] != '/' {
+		i--
+	}
+	base := name[i+1:]
+	return len(base) > 6 && base[:6] == ".info_"
+}
 
 func (s *vStubFS) mutations() int {
 	return len(s.removed) + len(s.renamed) + len(s.mkdirs) + len(s.links) + len(s.written)
@@ -233,6 +263,8 @@ func vNewEnv() *vEnv {
 	e.news = &vStubNews{itemIsCategory: vBool("news_item_is_category")}
 	e.board = &vStubBoard{}
 	e.fs = &vStubFS{exists: vBool("target_exists"), isDir: vBool("target_is_folder"), size: 10}
+	e.fs.infoFork = vBool("info_fork_stored")
+	e.fs.infoSaysFldr = vBool("info_fork_says_folder")
 	e.ftm = &vStubFTM{}
 	e.srv.AccountManager = e.am
 	e.srv.BanList = e.ban
